@@ -170,7 +170,7 @@ func WriteCandidates(st *state.StateDB, cands []CandidateSpec) {
 		if c.Deposit != nil {
 			dep := c.Deposit.String()
 			// tagObj, tagString, len(2), string+NUL  (GetCandidatesDeposit reads value[2:4] as length, value[4:4+len-1])
-			v := []byte{0, tagString}
+			v := []byte{1, tagString} // first byte non-zero: storage trims leading zero bytes
 			var b [2]byte
 			binary.LittleEndian.PutUint16(b[:], uint16(len(dep)+1))
 			v = append(v, b[:]...)
